@@ -100,6 +100,7 @@ func runSmall(c *core.Ctx) []core.Obligation {
 	smallHeldPointerCycle(c, b)
 	smallWave20(c, b)
 	smallWave20b(c, b)
+	smallWave21(c, b)
 	smallStringOptionNull(c, b)
 	smallStringOptionMarshaler(c, b)
 	return b.out
@@ -4723,9 +4724,18 @@ func smallWave19(c *core.Ctx, b *ob) {
 			for _, o := range origins(r.Results[0]) {
 				n++
 				bo, ok := o.(*ssa.BinOp)
-				if !ok || !isStringType(bo.X.Type()) || !isStringType(bo.Y.Type()) {
-					bad = c.InstrPos(r)
+				if ok && isStringType(bo.X.Type()) && isStringType(bo.Y.Type()) {
+					continue
 				}
+				// bytes.Compare(text0, text1) < 0 and strings.Compare are the same comparison
+				if ok {
+					if call, isCall := bo.X.(*ssa.Call); isCall {
+						if n := calleeName(call.Common()); n == "bytes.Compare" || n == "strings.Compare" {
+							continue
+						}
+					}
+				}
+				bad = c.InstrPos(r)
 			}
 		}
 		switch {
@@ -5272,6 +5282,16 @@ func smallWave20(c *core.Ctx, b *ob) {
 					continue
 				}
 				k, isK := constInt(r.Results[0])
+				if !isK {
+					// "prefix bytes + payload": k + n under a test of n
+					if add, ok := r.Results[0].(*ssa.BinOp); ok && add.Op == token.ADD {
+						if kk, ok := constInt(add.X); ok {
+							k, isK = kk, true
+						} else if kk, ok := constInt(add.Y); ok {
+							k, isK = kk, true
+						}
+					}
+				}
 				if !isK || k < 1 || k > 9 {
 					continue
 				}
@@ -5285,7 +5305,7 @@ func smallWave20(c *core.Ctx, b *ob) {
 					if _, xConst := constInt(bo.X); !isLim || xConst {
 						continue
 					}
-					if !isUnsignedInt(bo.X.Type()) {
+					if bt, ok := bo.X.Type().Underlying().(*types.Basic); !ok || bt.Info()&types.IsInteger == 0 {
 						continue
 					}
 					var maxIncl uint64
@@ -5439,6 +5459,200 @@ func smallWave20b(c *core.Ctx, b *ob) {
 				b.addP(props, core.Violation, key, bad, "parseEntered, which takes one nesting level back because its caller already counted the container it validates, is applied to a value other than the caller's own input (a member being skipped): that value is validated one level too shallow, and a document nested 10001 deep is accepted where Valid and encoding/json report exceeded max depth")
 			default:
 				b.addP(props, core.Discharged, key, c.FuncPos(pe), fmt.Sprintf("%d call(s), each on the caller's own input", n))
+			}
+		}
+	}
+}
+
+// smallWave21 groups single-site clauses added after the twenty-first round of seeded changes.
+func smallWave21(c *core.Ctx, b *ob) {
+	// S92 — skipValues loops "for i < n": a negative element count makes it consume nothing and
+	// succeed. Every call hands it a count that was tested non-negative on the way.
+	{
+		props := []string{"C08"}
+		n := 0
+		for _, fn := range c.RepoFunctions() {
+			if fn.Blocks == nil || fn.Pkg == nil || fn.Pkg.Pkg.Name() != "thrift" {
+				continue
+			}
+			count := 0
+			for _, ci := range callsIn(fn) {
+				f := staticCallee(ci.Common())
+				if f == nil || f.Name() != "skipValues" || len(ci.Common().Args) < 2 {
+					continue
+				}
+				n++
+				count++
+				key := fmt.Sprintf("skip-values:count-non-negative:%s#%d", closureIndex.ReplaceAllString(shortName(fn), ""), count)
+				if signedUnchecked(ci.Common().Args[1], ci.(ssa.Instruction).Block()) {
+					b.addP(props, core.Violation, key, c.InstrPos(ci), shortName(fn)+" skips the elements of a container whose element count has not been tested non-negative: skipValues loops zero times for a negative count and reports success, so a header announcing -1 elements of a mismatched type is accepted (in non-strict mode) instead of rejected")
+				} else {
+					b.addP(props, core.Discharged, key, c.InstrPos(ci), "the count was tested >= 0 before the skip")
+				}
+			}
+		}
+		if n == 0 {
+			b.addP(props, core.Undecided, "skip-values:count-non-negative", "-", "no call of thrift.skipValues found")
+		}
+	}
+	// S93 — the fields of a skipped struct are skipped like the fields of the struct being decoded:
+	// with skipField, which knows that a coalesced bool has no value byte. Sibling of the
+	// skip:coalesced-bool clause, one level down.
+	{
+		props := []string{"C08", "C13", "C04"}
+		key := "skip-struct:fields-skipped-with-skipField"
+		fn := c.Lookup("thrift.skipStruct")
+		sf := c.Lookup("thrift.skipField")
+		if fn == nil || sf == nil {
+			b.addP(props, core.Undecided, key, "-", "thrift.skipStruct or thrift.skipField not found")
+		} else {
+			ok := false
+			for _, ci := range callsIn(fn) {
+				f := staticCallee(ci.Common())
+				if f == nil || f.Name() != "readStruct" {
+					continue
+				}
+				for _, a := range ci.Common().Args {
+					switch x := a.(type) {
+					case *ssa.Function:
+						if x == sf {
+							ok = true
+						}
+						for _, c2 := range callsIn(x) {
+							if staticCallee(c2.Common()) == sf {
+								ok = true
+							}
+						}
+					case *ssa.MakeClosure:
+						if cf, isF := x.Fn.(*ssa.Function); isF {
+							for _, c2 := range callsIn(cf) {
+								if staticCallee(c2.Common()) == sf {
+									ok = true
+								}
+							}
+						}
+					}
+				}
+			}
+			if ok {
+				b.addP(props, core.Discharged, key, c.FuncPos(fn), "skipStruct reads the struct with skipField")
+			} else {
+				b.addP(props, core.Violation, key, c.FuncPos(fn), "skipStruct skips the fields of an ignored struct with something other than skipField: a bool field of a nested ignored struct (compact protocol: its value is in the field header) makes skip() swallow the next byte, and everything after it is read out of phase — an unknown field holding a struct with a bool no longer leaves the decoded value unchanged")
+			}
+		}
+	}
+	// S94 — a value the Decoder has handed out is the caller's: json never appends into the memory
+	// of a slice it loads from the destination (append((*m)[:0], …) reuses the array of the
+	// RawMessage returned by an earlier Decode).
+	{
+		props := []string{"C10", "C11"}
+		key := "json:no-append-into-destination-memory"
+		bad, n := "", 0
+		for _, fn := range c.RepoFunctions() {
+			if fn.Blocks == nil || !strings.HasPrefix(shortName(fn), "json.") {
+				continue
+			}
+			for _, ci := range callsIn(fn) {
+				bi, ok := ci.Common().Value.(*ssa.Builtin)
+				if !ok || bi.Name() != "append" || len(ci.Common().Args) == 0 {
+					continue
+				}
+				n++
+				sl, ok := ci.Common().Args[0].(*ssa.Slice)
+				if !ok {
+					continue
+				}
+				if h, isK := constInt(sl.High); sl.High == nil || !isK || h != 0 {
+					continue
+				}
+				ld, ok := sl.X.(*ssa.UnOp)
+				if !ok || ld.Op != token.MUL {
+					continue
+				}
+				// loaded through a pointer that comes from a parameter (the destination)
+				fromParam := dependsOn(ld.X, func(x ssa.Value) bool {
+					_, isP := x.(*ssa.Parameter)
+					return isP
+				})
+				if _, isAlloc := stripConv(ld.X).(*ssa.Alloc); isAlloc {
+					fromParam = false // a local variable
+				}
+				if fromParam && strings.Contains(strings.ToLower(fn.Name()), "decode") {
+					bad = c.InstrPos(ci) + " (" + shortName(fn) + ")"
+				}
+			}
+		}
+		switch {
+		case bad != "":
+			b.addP(props, core.Violation, key, bad, "a json decode function appends into x[:0] where x is loaded from the destination: the bytes land in the array of the value handed out by the previous call (a RawMessage the caller still holds is rewritten by the next Decode into the same variable)")
+		case n == 0:
+			b.addP(props, core.Undecided, key, "-", "no append found in json")
+		default:
+			b.addP(props, core.Discharged, key, "-", fmt.Sprintf("%d append(s) in json, none into memory loaded from the destination", n))
+		}
+	}
+	// S96 — Decode consumes one value from the stream on every call, whatever the target: an
+	// invalid target is reported after the value was read (by Parse), like in encoding/json, so
+	// that the next Decode sees the next value.
+	{
+		props := []string{"C11"}
+		key := "decoder:decode-always-consumes-a-value"
+		fn := c.Lookup("json.(*Decoder).Decode")
+		if fn == nil {
+			b.addP(props, core.Undecided, key, "-", "json.(*Decoder).Decode not found")
+		} else {
+			var rv ssa.Instruction
+			for _, ci := range callsIn(fn) {
+				if f := staticCallee(ci.Common()); f != nil && f.Name() == "readValue" {
+					rv = ci.(ssa.Instruction)
+				}
+			}
+			bad := ""
+			if rv != nil {
+				for _, r := range returnsOf(fn) {
+					if !instrDominates(rv, r) {
+						bad = c.InstrPos(r)
+					}
+				}
+			}
+			switch {
+			case rv == nil:
+				b.addP(props, core.Undecided, key, c.FuncPos(fn), "Decode does not call readValue")
+			case bad != "":
+				b.addP(props, core.Violation, key, bad, "Decoder.Decode returns on a path that did not read a value from the stream (an early rejection of the target): encoding/json consumes the value and then reports the invalid target, so after such a call every later Decode is one value behind and the end of the stream is reported with the wrong error")
+			default:
+				b.addP(props, core.Discharged, key, c.FuncPos(fn), "every return comes after readValue")
+			}
+		}
+	}
+	// S95 — thrift's pointer encoder writes a value for a nil pointer (the zero value): list, set
+	// and map headers have already announced the element.
+	{
+		props := []string{"C13", "C04"}
+		key := "thrift:nil-pointer-still-writes-a-value"
+		fn := c.Lookup("thrift.encodeFuncPtrOf$1")
+		if fn == nil {
+			b.addP(props, core.Undecided, key, "-", "thrift.encodeFuncPtrOf$1 not found")
+		} else {
+			n, bad := 0, ""
+			for _, r := range returnsOf(fn) {
+				if len(r.Results) != 1 {
+					continue
+				}
+				n++
+				for _, o := range origins(r.Results[0]) {
+					if isNilConst(o) {
+						bad = c.InstrPos(r)
+					}
+				}
+			}
+			switch {
+			case n == 0:
+				b.addP(props, core.Undecided, key, c.FuncPos(fn), "no return found")
+			case bad != "":
+				b.addP(props, core.Violation, key, bad, "the encoder of pointer types returns without writing anything on some path (a nil pointer): the header of the enclosing list, set or map has already announced that element, so the bytes hold fewer values than announced (3c 15 02 00 15 06 00 for three elements) and the peer reads the following field as the missing element")
+			default:
+				b.addP(props, core.Discharged, key, c.FuncPos(fn), "every path hands a value (the zero value for nil) to the element encoder")
 			}
 		}
 	}
